@@ -502,7 +502,8 @@ def synthesize(update_working_block=True, merge_io_vectors=True, block=None):
     block_out = PostSynthBlock()
     # resulting block should only have one of a restricted set of net ops
     block_out.legal_ops = set('~&|^nrwm@')
-    if merge_io_vectors:
+    # memory ports are also reassembled/disassembled with concats and selects
+    if merge_io_vectors or block_in.logic_subset('m@'):
         block_out.legal_ops.update(set('cs'))
     wirevector_map = {}  # map from (vector,index) -> new_wire
 
